@@ -244,6 +244,20 @@ func init() {
 						c.Fail("", "multi line string length is not the sum of its members", map[string]interface{}{"got": l, "want": 2 * sumH})
 					}
 					c.Evals(3)
+					// a bound is measured as its ring (the four sides are not pairwise equal on the sphere)
+					br := box.ToRing()
+					bE, bH := 0.0, 0.0
+					for i := 1; i < len(br); i++ {
+						bE += geo.Distance(br[i-1], br[i])
+						bH += geo.DistanceHaversine(br[i-1], br[i])
+					}
+					if l := geo.Length(box); !relClose(l, bE, 1e-12, 0) {
+						c.Fail("", "geo.Length(bound) is not the sum of its four sides", map[string]interface{}{"bound": sv(box), "got": l, "want": bE})
+					}
+					if l := geo.LengthHaversine(orb.Collection{box, ls}); !relClose(l, bH+sumH, 1e-12, 0) {
+						c.Fail("", "geo.LengthHaversine(collection with a bound) is not the sum of the members' segment distances", map[string]interface{}{"bound": sv(box), "got": l, "want": bH + sumH})
+					}
+					c.Evals(2)
 					// PointAtDistanceAlongLine lands on the line at that distance from the start (first segment case)
 					if sumH > 0 {
 						dd := r.Uniform(0, geo.DistanceHaversine(ls[0], ls[1]))
